@@ -168,4 +168,11 @@ def run(ctx):
     for cfg in ("K1", "K2"):
         crate = ctx.crate(cfg)
         common.borrow_rules(rep, lambda: (c11.check_pairs(cfg, crate, rep, tabs), c11.check_generate(cfg, crate, rep)), "C11.", "C16.keys")
+    # "the ring build, the aws-lc-rs build and the crypto-less build produce byte-identical to-be-signed data": the key
+    # identifier derivation is the one helper on the TBS path that is compiled differently with and without a back end;
+    # in every configuration it must return pre-specified identifiers unchanged and truncate digests alike
+    import c02
+    for cfg in ("K1", "K2", "K3"):
+        crate = ctx.crate(cfg)
+        common.borrow_rules(rep, lambda: c02.check_derive(cfg, crate, rep), "C02.", "C16.derive")
     matrix(ctx, rep)
